@@ -368,7 +368,7 @@ class Engine:
                     if mk in env:
                         env[mk] = now
                     tag = tag.split("@")[0]
-                state = self.auto.event(state, ("narrow", tag, now), where)
+                state = self.auto.event(state, ("narrow", tag, now, old[3]), where)
         return env, state
 
     # ---- operands ------------------------------------------------------------------------
@@ -719,10 +719,20 @@ class Engine:
             cfn = self.facts.fns.get(self.facts.inst[target]["def"])
             if cfn is not None:
                 fargs = self.bind_args(cfn, e, env, args)
-                res = self.summary(target, state, fargs)
+                # the look-ahead memo describes the reader, not the frame: it travels through calls
+                memo_in = tuple(sorted((l, v) for l, v in env.items() if -1000 < l < 0))
+                res = self._summary3(target, state, fargs, memo_in)
                 env2 = self.havoc(env, args)
                 env2 = {l: v for l, v in env2.items() if l >= 0}
-                return [(r, env2, s) for (r, s) in res]
+                out = []
+                for (r, s, memo_out) in res:
+                    e3 = env2
+                    if memo_out:
+                        e3 = dict(env2)
+                        for l, v in memo_out:
+                            e3[l] = v
+                    out.append((r, e3, s))
+                return out
         # 3. opaque closure parameter (generic F: FnOnce) -> oracle
         if self.closure_oracle is not None and "call_once" in n:
             r = self.closure_oracle(self, fn, bb, t, env, state, args, where)
@@ -756,7 +766,10 @@ class Engine:
 
     # ---- summaries -------------------------------------------------------------------------
     def summary(self, inst_key, state, fargs):
-        key = (inst_key, self.auto.key(state), fargs)
+        return frozenset((r, s) for (r, s, m) in self._summary3(inst_key, state, fargs, ()))
+
+    def _summary3(self, inst_key, state, fargs, memo):
+        key = (inst_key, self.auto.key(state), fargs, memo)
         r = self.memo.get(key)
         if r is not None:
             return r
@@ -765,7 +778,7 @@ class Engine:
         self.inprog.add(key)
         self.stack.append(inst_key)
         try:
-            r = self.run_body(inst_key, state, fargs)
+            r = self.run_body(inst_key, state, fargs, memo)
         finally:
             self.inprog.discard(key)
             self.stack.pop()
@@ -774,12 +787,14 @@ class Engine:
         self.stats["instances"].add(inst_key)
         return r
 
-    def run_body(self, inst_key, state, fargs):
+    def run_body(self, inst_key, state, fargs, memo=()):
         node = self.facts.inst[inst_key]
         fn = self.facts.fns[node["def"]]
         env0 = {}
         for i, a in enumerate(fargs):
             env0[i + 1] = a
+        for l, v in memo:
+            env0[l] = v
         seen = {}
         work = [(0, env0, state)]
         rets = {}
@@ -858,7 +873,8 @@ class Engine:
             if k == "goto":
                 work.append((t["target"], env, st))
             elif k == "return":
-                rets.setdefault((self.freeze(env, env.get(0, TOP)), skey(st)), st)
+                memo_out = tuple(sorted((l, v) for l, v in env.items() if -1000 < l < 0))
+                rets.setdefault((self.freeze(env, env.get(0, TOP)), skey(st), memo_out), st)
                 if self.trace_returns is not None:
                     self.trace_returns(inst_key, fn, bb, env, st)
             elif k == "switch":
@@ -876,10 +892,11 @@ class Engine:
                 work.append((t["target"], env, st))
             elif k == "tailcall":
                 for ret, env2, st2 in self.call(inst_key, fn, bb, t, env, st):
-                    rets.setdefault((self.freeze(env2, ret), skey(st2)), st2)
+                    memo_out = tuple(sorted((l, v) for l, v in env2.items() if -1000 < l < 0))
+                    rets.setdefault((self.freeze(env2, ret), skey(st2), memo_out), st2)
             # unreachable / resume / other: path ends
         self.stats["configs"] += nconf
-        return frozenset((k[0], v) for k, v in rets.items())
+        return frozenset((k[0], v, k[2]) for k, v in rets.items())
 
     def apply_refs(self, env, state, refs, where):
         for r in refs:
